@@ -55,8 +55,10 @@ DATES = ["2020-01-02", "1999-12-31", "2020-01-02T03:04:05", "2020-01-02T03:04:05
 long_text = st.lists(st.sampled_from(["Tensile", "test", "data", "of", "the", "annealed", "steel", "sample,", "batch", "7,", "run", "3.", "",
                                       "See", "notebook", "x" * 40, "a:", "- b", "#c", "ü"]), min_size=10, max_size=40).map(" ".join).filter(
     lambda s: s.strip() == s and s != "")
-text_values = st.one_of(st.sampled_from(TRICKY_STR), st.sampled_from(TRICKY_STR), long_text,
-                        st.text(alphabet=st.characters(min_codepoint=32, max_codepoint=0x2FF, blacklist_characters="\x7f\x85\xa0"),
+# characters YAML readers may take for line breaks / blanks
+BREAKISH = ["first line\x85second line", "a\xa0b", "x\u2028y", "p\u2029q", "tab\there", "trailing\x85"]
+text_values = st.one_of(st.sampled_from(TRICKY_STR), st.sampled_from(TRICKY_STR), long_text, st.sampled_from(BREAKISH),
+                        st.text(alphabet=st.characters(min_codepoint=32, max_codepoint=0x2FF, blacklist_characters="\x7f"),
                                 min_size=1, max_size=12).filter(lambda s: s.strip() != ""))
 floats = st.one_of(st.sampled_from([0.0, -0.0, 1.5, 1e308, 5e-324, 0.1, 1e16, 1e22, 123456789.12345679, -1.0, 3.0, 1 / 3]),
                    st.floats(allow_nan=False, allow_infinity=False, width=64))
